@@ -496,7 +496,16 @@ impl State {
     }
 
     pub fn decode_line(&self, bytes: &[u8]) -> String {
-        match DiameterMessage::decode_from(&mut Cursor::new(bytes), self.dict.clone()) {
+        self.decode_line_at(0, bytes)
+    }
+
+    /// the frame `bytes` behind `lead` other octets in one buffer, the reader positioned at the frame's first octet
+    pub fn decode_line_at(&self, lead: usize, bytes: &[u8]) -> String {
+        let mut buf: Vec<u8> = (0..lead).map(|i| 0xa5u8.wrapping_add(i as u8)).collect();
+        buf.extend_from_slice(bytes);
+        let mut cur = Cursor::new(&buf[..]);
+        cur.set_position(lead as u64);
+        match DiameterMessage::decode_from(&mut cur, self.dict.clone()) {
             Ok(m) => {
                 // C04: whatever was returned can be displayed, inspected, cloned and re-encoded
                 let shown = format!("{}", m);
@@ -557,6 +566,25 @@ impl State {
                     _ => return "bad-op".into(),
                 };
                 self.dict_mut().add_avp(AvpDefinition { code: c, vendor_id: v, name: n, avp_type: t, m_flag: *m == "1" });
+                "ok".into()
+            }
+            ["gdadd", c, v, n, t, m] => {
+                // a definition added to the library's process-wide default dictionary (a public, mutable global)
+                let (c, v, n, t) = match (c.parse::<u32>().ok(), p_vendor(v), unhex_str(n), type_of_name(t)) {
+                    (Some(c), Some(v), Some(n), Some(t)) => (c, v, n, t),
+                    _ => return "bad-op".into(),
+                };
+                match diameter::dictionary::DEFAULT_DICT.write() {
+                    Ok(mut g) => {
+                        g.add_avp(AvpDefinition { code: c, vendor_id: v, name: n, avp_type: t, m_flag: *m == "1" });
+                        "ok".into()
+                    }
+                    Err(_) => "err".into(),
+                }
+            }
+            ["dbuiltin"] => {
+                // a new dictionary object from the built-in document - the static itself, as users pass it
+                self.dict = Arc::new(Dictionary::new(&[&diameter::dictionary::DEFAULT_DICT_XML]));
                 "ok".into()
             }
             ["doc_begin"] => {
@@ -1090,7 +1118,9 @@ impl State {
                         }
                     }
                 }
-                let late: Option<u32> = if *late == "-" { None } else { late.parse().ok() };
+                // `c<id>`: before the late send the application tries to connect again - to a port nobody listens on
+                let reconnect = late.starts_with('c');
+                let late: Option<u32> = if *late == "-" { None } else { late.trim_start_matches('c').parse().ok() };
                 let dict = self.dict.clone();
                 self.rt.block_on(async move {
                     use crate::sio::sync_hooks;
@@ -1099,7 +1129,7 @@ impl State {
                     let ulog: Arc<std::sync::Mutex<Vec<String>>> = Default::default();
                     let stream = crate::sio::Scripted::new(rd, wr);
                     stream.0.lock().unwrap().ulog = Some(ulog.clone());
-                    let mut client = DiameterClient::new("unused:0", DiameterClientConfig { use_tls: false, verify_cert: false });
+                    let mut client = DiameterClient::new("127.0.0.1:1", DiameterClientConfig { use_tls: false, verify_cert: false });
                     let mut handler = client.verif_attach_stream(stream.clone());
                     let d2 = dict.clone();
                     let reader = tokio::spawn(async move {
@@ -1142,6 +1172,13 @@ impl State {
                     sync_hooks(&ulog);
                     let mut late_res = "none".to_string();
                     if let Some(h) = late {
+                        if reconnect {
+                            let r = tokio::time::timeout(std::time::Duration::from_secs(600), client.connect()).await;
+                            if matches!(r, Ok(Ok(_))) {
+                                return "bad-op reconnect-succeeded".to_string();
+                            }
+                            sync_hooks(&ulog);
+                        }
                         ulog.lock().unwrap().push(format!("sb:{}", plan.len()));
                         let before = count_reg(&ulog);
                         let r = client.send_message(request(h, 0)).await;
@@ -1221,14 +1258,19 @@ impl State {
                 }
                 _ => "bad-op".into(),
             },
+            ["decat", k, h] => match (k.parse::<usize>().ok(), unhex(h)) {
+                (Some(k), Some(b)) => self.decode_line_at(k, &b),
+                _ => "bad-op".into(),
+            },
             ["decq", h] => match unhex(h) {
                 Some(b) => {
                     // "in bounded time": decoding, displaying, inspecting and re-encoding a frame is linear work; the
                     // budget is generous (2 s plus 3 s per MiB, against about 0.1 s per MiB on the unchanged tree) so that
                     // only a change of complexity class can exceed it
-                    let t0 = std::time::Instant::now();
+                    // (CPU time of this thread, so that a loaded machine does not look like a slow decoder)
+                    let t0 = crate::util::thread_cpu_ms();
                     let a = self.decode_line(&b).split(' ').next().unwrap().to_string();
-                    let ms = t0.elapsed().as_millis() as u64;
+                    let ms = crate::util::thread_cpu_ms().saturating_sub(t0);
                     if ms > 2_000 + 3 * (b.len() as u64 >> 10) {
                         format!("{} slow", a)
                     } else {
